@@ -135,6 +135,12 @@ def gen_vm_program(rnd, size):
     root = []
     for i in range(rnd.randint(0, 3)):
         name = 'fn%d' % i
+        if rnd.random() < 0.12:
+            # a function with an empty body: calling it starts no statement at all (also as statement L of a run limited to L)
+            root.append({'function': {'name': name, 'args': ['a1', 'a2'], 'statements': []}})
+            funcs.append(name)
+            classes.add('empty-function')
+            continue
         if rnd.random() < 0.35:
             # a one-statement function (only a return): predicate / comparator / one-line recursion
             kind = rnd.choice(['pred', 'cmp', 'rec'])
@@ -332,6 +338,8 @@ CALLBACK_CALLS = ["dataFilter(dd, 'chk(a)', objectNew('q', 1))", "dataFilter(dd,
                   "dataCalculatedField(dd, 'b', 'chk(a)')", "arrayIndexOf(arrayNew(1, 2, 3), chk)", "dataJoin(dd, dd, 'chk(a)', null, false, objectNew('q', 1))",
                   "dataJoin(dd, dd, 'chk(a)')", "arraySort(arrayNew(3, 1, 2), chk)", "systemLog(arrayIndexOf(arrayNew(0, 1, 2, 3), one))",
                   "systemLog(deep(6))", "dataFilter(dd, 'one(a)', objectNew('q', 1))", "systemLog(deep(3) + deep(2))",
+                  # recursion close to (but within) what the host stack allows: the outcome must not depend on the budget
+                  "systemLog(deep(90))", "systemLog(deep(120))", "systemLog(deep(140) + deep(5))",
                   "dataFilter(dd, 'chk(a)', objectNew())", "dataCalculatedField(dd, 'b', 'chk(a)', objectNew())", "dataJoin(dd, dd, 'chk(a)', null, false, objectNew())"]
 
 
@@ -413,6 +421,36 @@ def check_structured(src, globals0, seed):
     return n, terminates
 
 
+DEEP_SHAPES = {
+    'expression': "function deep(nn):\n    return if(nn > 0, deep(nn - 1) + 1, 0)\nendfunction\nsystemLog('total = ' + deep(%d))\nsystemLog('after')\n",
+    'statement': "function deep(nn):\n    if nn <= 0:\n        return 0\n    endif\n    rr = deep(nn - 1)\n    return rr + 1\nendfunction\nsystemLog('total = ' + deep(%d))\nsystemLog('after')\n",
+}
+
+
+def check_deep_recursion(shape, depth):
+    """Recursion deeper than the host stack allows (the call that overflows fails and yields null; the reference cannot know where). Only the
+    part of the property that needs no reference is checked: a run that completes after N statements behaves identically under every limit >= N."""
+    import sys
+    src = DEEP_SHAPES[shape] % depth
+    d = {'kind': 'deep', 'shape': shape, 'depth': depth, 'source': src}
+    model = impl.parse_valid(src, d)
+    saved = sys.getrecursionlimit()
+    sys.setrecursionlimit(1000)          # (the runner raises the limit for its own deep structures; an embedding host runs with the default)
+    try:
+        big = run_structured(model, 0, {})
+        if big[0][0] != 'ok':
+            return None
+        n = big[2]
+        for limit in (n, n + 1, n + 2, 2 * n, 10 * n, 1000000):
+            a = run_structured(model, limit, {})
+            if a[0] != big[0] or a[1] != big[1] or a[2] != big[2]:
+                raise Violation('%s recursion of depth %d completes after N=%d statements (%r), but under maxStatements=%d it gives %r %r (count %r)' % (
+                    shape, depth, n, big[1][:1], limit, a[0], a[1][:1], a[2]), dict(d, limit=limit), 'not-monotone-deep')
+    finally:
+        sys.setrecursionlimit(saved)
+    return n
+
+
 def plan(tier):
     k = 8 if tier == 'quick' else 16
     specs = [{'kind': 'vm', 'n': 800 if tier == 'quick' else 3000, 'k': i} for i in range(k)]
@@ -436,6 +474,16 @@ def run_shard(ctx, spec):
         run_hypothesis(ctx, prop, [st.integers(0, 2 ** 32 - 1), st.integers(1, 5)], spec['n'], salt=spec['k'])
         return
 
+    if spec['k'] == 0:
+        for shape in DEEP_SHAPES:
+            for depth in (150, 230, 300, 450, 700):
+                try:
+                    n = check_deep_recursion(shape, depth)
+                except Violation as v:
+                    ctx.violation(v)
+                    n = 0
+                ctx.case(digest(['deep', shape, depth]), True, ['deep-recursion', 'deep:' + shape], {'shape': shape, 'depth': depth, 'N': n})
+
     def sprop(seed, size):
         rnd = random.Random(seed)
         src, globals0, classes = gen_structured(rnd, size)
@@ -450,6 +498,9 @@ def run_shard(ctx, spec):
 
 
 def replay(detail):
+    if detail.get('kind') == 'deep':
+        check_deep_recursion(detail['shape'], detail['depth'])
+        return
     from pbt.common.core import dec
     from pbt.gen import values as gv
     if detail.get('kind') == 'vm':
